@@ -277,18 +277,14 @@ impl Number {
 
         let num = self.0.abs();
 
-        if is_compressed && num < 1.0 {
-            buffer.push_str(
-                format!("{:.10}", num)[1..]
-                    .trim_end_matches('0')
-                    .trim_end_matches('.'),
-            );
+        let formatted = format!("{:.10}", num);
+        let trimmed = formatted.trim_end_matches('0').trim_end_matches('.');
+
+        // only a literal leading `0.` is dropped: a number just below 1 may have been rounded up to `1`
+        if is_compressed && trimmed.starts_with("0.") {
+            buffer.push_str(&trimmed[1..]);
         } else {
-            buffer.push_str(
-                format!("{:.10}", num)
-                    .trim_end_matches('0')
-                    .trim_end_matches('.'),
-            );
+            buffer.push_str(trimmed);
         }
 
         if buffer.is_empty() || buffer == "-" || buffer == "-0" {
